@@ -231,7 +231,7 @@ class P:
             c = self.expr()
             a = self.block()
             self.eat('else')
-            b = self.primary() if self.peek() == 'if' else self.block()
+            b = ('{ %s }' % self.primary()) if self.peek() == 'if' else self.block()
             return '(if %s %s else %s)' % (c, a, b)
         m = re.fullmatch(r'(\d+(?:\.\d+)?)(real|int|nat|u8|u16|u32|u64|usize|i32|i64)?', t)
         if m:
